@@ -1,4 +1,5 @@
 import DoviModel.Model.Ops
+import DoviModel.Gen.SourceRules
 /-! # C12 — extension-block edits keep each DM container consistent -/
 namespace Dovi.C12
 open Dovi
@@ -680,5 +681,16 @@ example :
     (applyRpuOps r [.crop, .dm (.add { level := 2, length := 11, vals := [2081, 0, 0, 0, 0, 0, 0] }), .removeCmv40,
         .copyLevels { vdr_dm_data := some { cmv29 := some { num_ext_blocks := 1, blocks := [{ level := 6, length := 8, vals := [1000, 1, 0, 0] }] } } } [6]]).isOk = true := by
   decide
+
+/-- **source tie** (Gen/SourceRules.lean is regenerated from /repo on every run by tools/gen_source_rules.py): the
+`sort_key()` of every block level as it stands in the source now — `(level, 0)` by default, `(level, field)` for the
+levels that override it — is the model's `Block.sortKey`, on which every ordering theorem above is built -/
+theorem source_sort_key_agrees (b : Block) (hl : b.level ∈ [1, 2, 3, 4, 5, 6, 8, 9, 10, 11, 254, 255]) :
+    b.sortKey = (b.level, match Src.sortKeyField.lookup b.level with
+                          | some (some i) => (b.vals.getD i 0).toNat
+                          | _ => 0) := by
+  obtain ⟨l, len, vals⟩ := b
+  simp only [List.mem_cons, List.mem_nil_iff, or_false] at hl
+  rcases hl with h | h | h | h | h | h | h | h | h | h | h | h <;> subst h <;> rfl
 
 end Dovi.C12
